@@ -10,3 +10,10 @@ MUTANTS = [
     {'name': 'note_array row loses a value', 'file': 'partitura/performance.py', 'old': '                    n.get("track", 0),\n                    n.get("channel", 1),\n                    n["id"],', 'new': '                    n.get("track", 0),\n                    n["id"],', 'expect': 'F4a'}]
 
 NEUTRALS = [{'name': 'flip threshold comparison', 'file': 'partitura/performance.py', 'old': '        [(x["time"], x["value"] > threshold) for x in controls if x["number"] == 64]', 'new': '        [(x["time"], threshold < x["value"]) for x in controls if x["number"] == 64]'}]
+
+# changes made by sub-agents that were given only the property text (see /verif/seeded/<id>/): each must stay reported
+SEEDED = [
+    {'name': 'seeded change C14-r2', 'seed': 'C14-r2', 'expect': '|ALLPATHS|'},
+    {'name': 'seeded change C14', 'seed': 'C14', 'expect': '|MUSTCALL|'},
+]
+MUTANTS += SEEDED
